@@ -179,7 +179,9 @@ def run(ctx: Any, prog: Program) -> None:
                   text='instance removed before collapse')
         # the work list is re-read from by_class['func_instance'] each pass and the function returns when it is empty
         src = ast.unparse(outer[0])
-        ok = "by_class['func_instance']" in src and any(isinstance(n, ast.Return) for n in ast.walk(outer[0]))
+        byc = [n for n in ast.walk(outer[0]) if isinstance(n, ast.Subscript) and (dotted(n.value) or '').endswith('by_class')]
+        ctx.shape('C17.N2', all(isinstance(n.slice, ast.Constant) and n.slice.value == 'func_instance' for n in byc), ins, outer[0], "the class index is read under the literal 'func_instance'", text='worklist re-read, early return')
+        ok = bool(byc) and any(isinstance(n, ast.Return) for n in ast.walk(outer[0]))
         ctx.check('C17.N2', ok, ins, outer[0], 'each pass must re-read the remaining func_instance entities and return when none are left', text='worklist re-read, early return')
         # every return inside the pass loop is taken only when the work list just read from by_class['func_instance'] is empty: instances
         # added by this pass (nested instances of templates, including cached ones) are otherwise left uncollapsed
